@@ -29,6 +29,8 @@ def main():
         for k, v in binds.items():
             P.set_variable(k, list(v) if isinstance(v, list) else v)
         try:
+            if f.startswith('DEGREES('):
+                P.set_function('DEGREES', lambda *a: 4242)      # a custom function under the name of a built-in takes its place
             r = P.parse(f)
             out.append('%s|%s' % (show(r['result']), r['error']))
         except BaseException as e:
